@@ -377,6 +377,13 @@ OBLIGATIONS = [
 
 
 MUTANTS = [
+    dict(name="original F-C01: threaded processor sends every output of a multi-output plugin, also a loaded one",
+         file="strax/processors/threaded_mailbox.py",
+         old="                outputs = tuple(k for k in p.provides if k not in components.loaders)",
+         new="                outputs = tuple(p.provides)"),
+    dict(name="overlap window: input cache cut from invalid_beyond", file="strax/plugins/overlap_window_plugin.py",
+         old="        cache_inputs_beyond = int(self.sent_until - 2 * window_size[0] - 1)",
+         new="        cache_inputs_beyond = int(invalid_beyond - 2 * window_size[0] - 1)"),
     dict(name="loop plugin containment strict", file="strax/processing/general.py",
          old="        if b_starts[b_i] <= a_starts[a_i] and a_ends[a_i] <= b_ends[b_i]:",
          new="        if b_starts[b_i] < a_starts[a_i] and a_ends[a_i] <= b_ends[b_i]:"),
@@ -388,6 +395,6 @@ MUTANTS = [
          old="        while super()._fetch_chunk(d, iters, check_end_not_before=check_end_not_before):\n            pass",
          new="        super()._fetch_chunk(d, iters, check_end_not_before=check_end_not_before)"),
     dict(name="divide_outputs skips the last result dict", file="strax/mailbox.py",
-         old="            try:\n                for d, x in result.items():\n                    mailboxes[d].send(x)",
-         new="            try:\n                for d, x in list(result.items())[:max(1, len(result) - (i == 1))]:\n                    mailboxes[d].send(x)"),
+         old="            try:\n                for d, x in result.items():\n                    if d in mailboxes:",
+         new="            try:\n                for d, x in list(result.items())[:max(1, len(result) - (i == 1))]:\n                    if d in mailboxes:"),
 ]
